@@ -149,3 +149,27 @@ Proof.
   destruct (snd (get_user_state s u f false)) as [x|e] eqn:Eg; [|discriminate]. injection E as <-.
   exists x. split; [|reflexivity]. apply (txn_user_state_sound s u f x HI Ha Hrw Eg).
 Qed.
+
+(* ------------------------------------------------------------------ reads of what is committed *)
+Theorem Inv_get_committed s k f : Inv s -> Inv (fst (get_committed s k f)).
+Proof.
+  intros (C & K1 & N1 & K2 & N2). unfold get_committed.
+  destruct (cache_get (m_cache s) k); [repeat split; assumption|].
+  destruct f; [repeat split; assumption|].
+  destruct (kget (m_db s) k) as [r|] eqn:E; [|repeat split; assumption].
+  repeat split; try assumption; cbn [m_db m_cache]. unfold coherent; cbn [m_db m_cache]. apply coh_fill; auto.
+  rewrite (K1 _ _ E). exact E.
+Qed.
+
+(* get_committed returns the database's record - whatever the cache holds and whatever an open
+   transaction has pending - and changes neither the database nor the transaction *)
+Theorem get_committed_spec s k : Inv s ->
+  snd (get_committed s k false) = match kget (m_db s) k with Some r => Ok r | None => Err ENotFound end /\
+  m_db (fst (get_committed s k false)) = m_db s /\ m_mods (fst (get_committed s k false)) = m_mods s /\
+  m_active (fst (get_committed s k false)) = m_active s.
+Proof.
+  intros (C & _). unfold get_committed.
+  destruct (cache_get (m_cache s) k) as [r|] eqn:E.
+  - rewrite (C k r E). repeat split; reflexivity.
+  - destruct (kget (m_db s) k); repeat split; reflexivity.
+Qed.
